@@ -42,6 +42,11 @@ Inductive scmd :=
 | SRedrawOther (s : nat)   (* screens[s].redraw(): a render signal whose source is ANOTHER screen *)
 | SCloseOther (s : nat)    (* screens[s].close(): a close signal whose source is another screen *)
 | SGetUserInput        (* self.get_user_input(...): blocking *)
+| SSetTypeAhead (b : bool)     (* from now on the user has (b = true) / has not typed ahead: with type-ahead a reader thread
+                                  returns at once and its InputReceivedSignal is enqueued before start_input_thread returns *)
+| SHandlerAsk (h : nat) (skip : bool)   (* the application's own InputHandler object h (created on first use, source None):
+                                           h.skip_concurrency_check = skip; h.get_input(prompt) *)
+| SHandlerWait (h : nat)       (* h.wait_on_input(); then look at (h.input_successful(), h.value) *)
 | SSetInputRequired (b : bool)
 | SSetAnswer (a : answer)
 | SMark (n : nat)
@@ -95,11 +100,13 @@ Record sstate := {
   st_next_sd : nat;
   st_rb : bool;                     (* registers for results of callbacks *)
   st_rv : ret_val;
-  st_run_empty : bool               (* configuration: should_run_with_empty_stack *)
+  st_run_empty : bool;              (* configuration: should_run_with_empty_stack *)
+  st_typeahead : bool;              (* the user has typed ahead: the next reader thread gets its line at once *)
+  st_hobj : list (nat * nat)        (* the application's own InputHandler objects: name -> index in st_ih *)
 }.
 #[export] Instance eta_sstate : Settable _ :=
   settable! Build_sstate <st_stack; st_first; st_quit; st_scr; st_ih; st_istack; st_processing; st_typed;
-                          st_next_sd; st_rb; st_rv; st_run_empty>.
+                          st_next_sd; st_rb; st_rv; st_run_empty; st_typeahead; st_hobj>.
 
 Definition scr0 (sp : screen_spec) : scrst :=
   {| ss_ready := false; ss_input_required := sc_input_required sp; ss_err := 0; ss_input_args := 0;
@@ -113,6 +120,8 @@ Definition T_PROMPT := 5. Definition T_INPUT := 7.    Definition T_CLOSED := 8. 
 Definition T_MODAL_RETURN := 10. Definition T_REFUSED := 11. Definition T_READY := 12. Definition T_GOT := 13.
 Definition T_MARK := 14.  Definition T_STACK := 15.   Definition T_ASK := 16.
 Definition T_OP := 17. Definition T_REQ := 18. Definition T_ACTION := 19.
+(* T_WAITED [h; n; input_successful(); value is not None] value: what the application sees after h.wait_on_input() *)
+Definition T_WAITED := 20.
 (* stack primitives, T_STACK [kind; entry id; screen; args; modal]:  ScreenStack.append / add_first / pop *)
 Definition K_APPEND := 0. Definition K_ADD_FIRST := 1. Definition K_POP := 2.
 (* scheduler operations, T_OP [kind; screen; args], logged on entry *)
@@ -172,7 +181,11 @@ Section Screens.
     ev T_PROMPT [req; 0] ;;
     rd (fun u => match st_typed u with
                  | l :: r => wr (fun u => u <| st_typed := r |>) ;;
-                             PApi (AExtAdd (received_spec req (match l with Some s => s | None => [] end)))
+                             (* the thread's App.get_event_loop().enqueue_signal(InputReceivedSignal(self, data)): with
+                                type-ahead it happens before start_thread() returns, else when the loop is idle *)
+                             (if st_typeahead u
+                              then PApi (AEnqueue (received_spec req (match l with Some s => s | None => [] end)))
+                              else PApi (AExtAdd (received_spec req (match l with Some s => s | None => [] end))))
                  | [] => PRet                      (* the user types nothing more: the thread waits for ever *)
                  end).
 
@@ -226,6 +239,28 @@ Section Screens.
       PWhile (fun u => negb (ih_received (ih_of u n))) (PApi (AProcess (Some CLS_READY))) ;;
       ev T_GOT [scr; n]).
 
+  (* the application's own InputHandler objects *)
+  Fixpoint hlookup (h : nat) (m : list (nat * nat)) : option nat :=
+    match m with [] => None | (k, n) :: r => if (h =? k)%nat then Some n else hlookup h r end.
+
+  Definition handler_ask (self h : nat) (skip : bool) : sprog :=
+    rd (fun u => match hlookup h (st_hobj u) with
+                 | Some n => handler_get_input n skip
+                 | None => new_input_handler None self false (fun n =>
+                             wr (fun u => u <| st_hobj := (h, n) :: st_hobj u |>) ;; handler_get_input n skip)
+                 end).
+
+  (* InputHandler.wait_on_input(): while not self._input_received: process_signals(InputReadySignal) *)
+  Definition handler_wait (h : nat) : sprog :=
+    rd (fun u => match hlookup h (st_hobj u) with
+                 | Some n =>
+                   PWhile (fun u => negb (ih_received (ih_of u n))) (PApi (AProcess (Some CLS_READY))) ;;
+                   rd (fun u => evt T_WAITED [h; n; b2n (ih_success (ih_of u n));
+                                              b2n (match ih_value (ih_of u n) with Some _ => true | None => false end)]
+                                    (match ih_value (ih_of u n) with Some v => v | None => [] end))
+                 | None => PRet
+                 end).
+
   (* ---------------- the application's callbacks ---------------- *)
   (* [close_now] = what scheduler.close_screen() means here (see below: the closed() callback runs
      its commands with a dummy, which breaks the recursion closed() -> close_screen() -> closed()) *)
@@ -263,6 +298,9 @@ Section Screens.
     | SRedrawOther s => PApi (AEnqueue (render_spec (Some s)))
     | SCloseOther s => PApi (AEnqueue (close_spec s))
     | SGetUserInput => get_input_blocking self
+    | SSetTypeAhead b => wr (fun u => u <| st_typeahead := b |>)
+    | SHandlerAsk h skip => handler_ask self h skip
+    | SHandlerWait h => handler_wait h
     | SSetInputRequired b => wr (upd_scr self (fun s => s <| ss_input_required := b |>))
     | SSetAnswer a => wr (upd_scr self (fun s => s <| ss_answer := a |>))
     | SMark n => ev T_MARK [self; n]
@@ -464,7 +502,7 @@ End Screens.
 Definition sstate0 (specs : list screen_spec) (typed : list (option str)) (quit : option nat) (run_empty : bool) : sstate :=
   {| st_stack := []; st_first := false; st_quit := quit; st_scr := map scr0 specs; st_ih := []; st_istack := [];
      st_processing := false; st_typed := typed; st_next_sd := 0; st_rb := false; st_rv := RNone;
-     st_run_empty := run_empty |}.
+     st_run_empty := run_empty; st_typeahead := false; st_hobj := [] |}.
 
 
 (* ---- a whole application session ---- *)
